@@ -655,6 +655,46 @@ def _run_property_returns(env, acc):
                                   {"got": got, "expected": exp}, size=len(text))
 
 
+SIGNATURE_SHAPES = [
+    # (name, signature as written) -- colons inside any bracket pair belong to the signature, the first top-level ": " ends it
+    ("g", "g[T](a: T) -> T"), ("first", "first[T: Hashable](items: list[T]) -> T"), ("Stack", "Stack[T: Comparable](Sequence[T])"), ("pick", "pick[K: (int, str), V](m: dict[K, V]) -> V"),
+    ("g", "g(a={1: 2}, b=[x for x in y])"), ("g", "g(cb: Callable[[int], str] = lambda x: str(x))"), ("g", "g(a: dict[str, int] = {}, *args: int, **kw: str) -> list[dict[str, int]]"),
+    ("g", "g(s=slice(1, 2), t=x[1:2])"), ("C", "C(a: int = 0, *, b: dict[str, list[int]] | None = None)"), ("g", "g()"), ("g", "g"),
+]
+
+
+def _run_signature_shapes(env, acc):
+    """Google / Numpy Functions and Classes sections whose items carry a full signature: the item's name is what stands before the first bracket,
+    its signature everything up to the top-level colon (Google) / the whole line (Numpy), whatever brackets, bounds, slices, lambdas or dict displays it contains."""
+    g = env["griffe"]
+    for style in ("google", "numpy"):
+        for kind in ("functions", "classes"):
+            for name, sig in SIGNATURE_SHAPES:
+                for two in (False, True):
+                    items = [_item(name, None, D1, sig=sig)] + ([_item("h", None, D2, sig="h(x)")] if two else [])
+                    sections = [{"kind": "text", "text": [["Summary line."]]}, {"kind": kind, "items": items}]
+                    text = RENDER[style](sections, {})
+                    case_d = {"style": style, "family": "signature-shapes", "text": text, "signature": sig}
+                    ds = g.Docstring(text, lineno=1, parent=env["mod"]["f"])
+                    try:
+                        got = _norm(ds.parse(style), env["enc"])
+                    except Exception as e:  # noqa: BLE001
+                        acc.violation(f"raise/{style}/{type(e).__name__}/signature-shapes", f"{style} parser raised {e!r}", case_d, None, size=len(text))
+                        continue
+                    exp = [{"kind": "text", "value": "Summary line."},
+                           {"kind": kind, "value": [{"name": it["name"], "annotation": it["sig"] if "(" in it["sig"] or "[" in it["sig"] else None, "description": _join(it["desc"], style)} for it in items]}]
+                    ok = got == exp
+                    if not ok and "[" in sig.split("(")[0] and len(got) == 2 and got[1].get("kind") == kind and len(got[1]["value"]) == len(items):
+                        # what the NAME of an item with type parameters is, is not said anywhere (this Griffe takes what stands before the first parenthesis): not compared
+                        alt = [dict(v, name=name) if i == 0 else v for i, v in enumerate(got[1]["value"])]
+                        ok = [got[0], {"kind": kind, "value": alt}] == exp
+                    acc.case(case_d, outcome=f"{style}:{'ok' if ok else 'diff'}", nontrivial=True)
+                    acc.observe(got)
+                    if not ok:
+                        shape = "type-parameters" if "[" in sig.split("(")[0] else "bare-name" if "(" not in sig else "brackets-in-parameters"
+                        acc.violation(f"roundtrip/{style}/signature-shapes/{kind}/{shape}", f"{style} {kind.capitalize()} item `{sig}`: parsed {got!r}, written {exp!r}", case_d, {"got": got, "expected": exp}, size=len(text))
+
+
 def run_shard(shard, tier):
     env = _setup()
     acc = Acc()
@@ -662,6 +702,8 @@ def run_shard(shard, tier):
         _run_property_summary(env, acc)
         _run_property_returns(env, acc)
         _run_sphinx_field_orders(env, acc)
+    if shard == 1:
+        _run_signature_shapes(env, acc)
     for idx, case in enumerate(cases(tier)):
         if idx % NSHARDS != shard:
             continue
@@ -672,8 +714,8 @@ def run_shard(shard, tier):
 def replay(case):
     env = _setup()
     acc = Acc()
-    if case.get("family") in ("property-summary", "property-returns", "sphinx-field-orders"):
-        {"property-summary": _run_property_summary, "property-returns": _run_property_returns, "sphinx-field-orders": _run_sphinx_field_orders}[case["family"]](env, acc)
+    if case.get("family") in ("property-summary", "property-returns", "sphinx-field-orders", "signature-shapes"):
+        {"signature-shapes": _run_signature_shapes, "property-summary": _run_property_summary, "property-returns": _run_property_returns, "sphinx-field-orders": _run_sphinx_field_orders}[case["family"]](env, acc)
         return [(k, v["summary"], v["detail"]) for k, v in acc.violations.items()]
     run_case(env, acc, (case["style"], tuple(case["sections"]), case["summary"], case["variant"]))
     return [(k, v["summary"], v["detail"]) for k, v in acc.violations.items()]
